@@ -786,7 +786,7 @@ def run(chooser, main_fn, real_timeout=180.0):
     res.now = s.now
     res.npoints = s.npoints
     res.preempts = s.preempts
-    res.threads = [(t.name, t.done, type(t.exc).__name__ if t.exc else None) for t in s.threads.values()]
+    res.threads = [(t.name, t.done, type(t.exc).__name__ if t.exc is not None else None) for t in s.threads.values()]
     S = None
     return res
 
